@@ -36,6 +36,7 @@ type weights struct {
 	multiPct   int // multi-message transactions
 	bulkPct    int // transactions of several storage purchases for different registrations
 	payerPct   int // transactions with an explicit fee payer
+	longPct    int // stream receivers (and, at half the rate, transfer recipients) that are long addresses
 	scramble   int // signer focus: random signer / named address
 	granterPct int // use an existing fee grant
 	lockedPct  int // prefer holders of locked eFUND as payers
@@ -94,7 +95,7 @@ func newWeights(focus string) (*weights, error) {
 	if !ok {
 		return nil, fmt.Errorf("unknown focus %q (want %s)", focus, strings.Join(Focuses(), "|"))
 	}
-	w := &weights{exactPct: 70, execPct: 10, multiPct: 15, granterPct: 10, lockedPct: 10, govPct: 5, maxCheck: 1, payerPct: 4}
+	w := &weights{exactPct: 70, execPct: 10, multiPct: 15, granterPct: 10, lockedPct: 10, govPct: 5, maxCheck: 1, payerPct: 4, longPct: 10}
 	for _, k := range txKinds {
 		x := fw[k]
 		if len(fw) == 0 || focus == "authz" && x == 0 {
@@ -114,9 +115,9 @@ func newWeights(focus string) (*weights, error) {
 	case "signer":
 		w.scramble = 45
 	case "stream":
-		w.longSteps = true
+		w.longSteps, w.longPct = true, 20
 	case "query":
-		w.queries = true
+		w.queries, w.longPct = true, 20
 	case "genesis":
 		w.genesis, w.govPct = true, 12 // parameter changes between purchases and exports (limits above a lowered maximum, …)
 	case "crash":
@@ -401,9 +402,9 @@ func one(o Options, w *weights, k int) (st *Stats, err error) {
 		st.Crashes.add(map[string]string{"ok": "ok", "bad": "err"}[ip.LastX])
 		return nil
 	}
-	var pending []script.Tx // CHECKs admitted in the previous gap
+	var pending []script.Tx           // CHECKs admitted in the previous gap
 	blockSigners := map[string]bool{} // accounts that signed a transaction of the block delivered last
-	noCheck := false // no CHECK between a CRASH and the next COMMIT (the restarted check state has an empty header)
+	noCheck := false                  // no CHECK between a CRASH and the next COMMIT (the restarted check state has an empty header)
 
 blocks:
 	for b := 0; b < o.Blocks; b++ {
